@@ -26,7 +26,7 @@ func TestVerif_C29(t *testing.T) {
 	}
 	defer env.srv.Stop()
 	c29RunPinned(t, env)
-	vh.Check(t, "merge", 300, 1200, func(rt *rapid.T) {
+	vh.Check(t, "merge", 300, 800, func(rt *rapid.T) {
 		c29Case(rt, env, rec)
 	})
 }
